@@ -313,4 +313,30 @@ SafeGetP(isSome, contentValid)            == isSome => contentValid
 ValidatedFlagP(flag, contentValid)        == flag => contentValid
 PutSafeP(ok, matches)                     == ok => matches
 GoneAfterP(foundCorrupt, sameStillThere)  == foundCorrupt => ~sameStillThere
+\* ------------------------------------- 5. the validating read, look by look
+(* get_with_validation is not atomic: it asks the layers one after the other, fastest first, and other users of
+   the cache run in between.  Reader rd = [pc, res, c]: pc = the next look - 1..NL the pass over the layers,
+   NL+1..2NL-1 an optional second pass over the faster layers 1..NL-1 (the re-check that get / contains make after
+   a full miss, for a key that a concurrent put is moving into the first layer), 0 = returned.  SecondLook is
+   "none" (the code at HEAD), "validated" (a second pass that treats a hit like the first pass does) or
+   "unvalidated" (returns what it finds unhashed).  ValidatedOnlyP must hold on EVERY interleaving of the looks
+   with the operations of other users: whatever is returned as a hit was hashed to the requested key. *)
+Rd0 == [pc |-> 1, res |-> "none", c |-> NoC]
+RdDone(res, c) == [pc |-> 0, res |-> res, c |-> c]
+LookR(lay, rd, k, ck, validating, secondLook) ==
+  LET nl     == Len(lay)
+      second == rd.pc > nl
+      i      == IF second THEN rd.pc - nl ELSE rd.pc
+      c      == lay[i][k]
+      checks == validating /\ (~second \/ secondLook = "validated")
+      next   == IF ~second THEN (IF rd.pc < nl THEN rd.pc + 1 ELSE IF secondLook = "none" \/ nl = 1 THEN 0 ELSE nl + 1)
+                ELSE (IF rd.pc < 2 * nl - 1 THEN rd.pc + 1 ELSE 0)
+  IN IF IsNoC(c) THEN [st |-> lay, rd |-> IF next = 0 THEN RdDone("none", NoC) ELSE [rd EXCEPT !.pc = next]]
+     ELSE IF checks /\ ~ValidFor(c, ck) THEN [st |-> [l \in 1..nl |-> [lay[l] EXCEPT ![k] = NoC]], rd |-> RdDone("err", NoC)]
+     ELSE [st |-> lay, rd |-> RdDone("some", c)]
+\* another user of the cache, atomic: a plain put (into the first layer, out of the slower ones), a put into one
+\* layer, a remove
+PlainPutR(lay, k, v) == [l \in 1..Len(lay) |-> [lay[l] EXCEPT ![k] = IF l = 1 THEN OkC(v) ELSE NoC]]
+RemoveAllR(lay, k)   == [l \in 1..Len(lay) |-> [lay[l] EXCEPT ![k] = NoC]]
+ValidatedOnlyP(rd, ck, validating) == (rd.pc = 0 /\ validating) => SafeGetP(rd.res = "some", ValidFor(rd.c, ck))
 =============================================================================
